@@ -40,7 +40,7 @@ func (c Compressor) Compress(source io.Reader, dest io.Writer) error {
 		// compress the message and write the result to the destination buffer;
 		// note that for empty messages, this results in a single byte being written and written = 1;
 		// this is normal and is what Cassandra expects for empty compressed messages.
-		if written, err := lz4.CompressBlock(uncompressedMessage, compressedMessage, nil); err != nil {
+		if written, err := compressBlock(uncompressedMessage, compressedMessage); err != nil {
 			return fmt.Errorf("cannot compress message: %w", err)
 		} else if _, err := dest.Write(compressedMessage[:written]); err != nil {
 			return fmt.Errorf("cannot write compressed message: %w", err)
@@ -62,13 +62,24 @@ func (c Compressor) CompressWithLength(source io.Reader, dest io.Writer) error {
 		// compress the message and write the result to the destination buffer starting at offset 4;
 		// note that for empty messages, this results in a single byte being written and written = 1;
 		// this is normal and is what Cassandra expects for empty compressed messages.
-		if written, err := lz4.CompressBlock(uncompressedMessage, compressedMessage[SizeOfLength:], nil); err != nil {
+		if written, err := compressBlock(uncompressedMessage, compressedMessage[SizeOfLength:]); err != nil {
 			return fmt.Errorf("cannot compress message: %w", err)
 		} else if _, err := dest.Write(compressedMessage[:written+SizeOfLength]); err != nil {
 			return fmt.Errorf("cannot write compressed message: %w", err)
 		}
 		return nil
 	}
+}
+
+// compressBlock works around a defect of the fast block compressor of pierrec/lz4 v4.0.3: for inputs longer than
+// 64 KiB it can emit matches at a distance of 65536 or 65537 bytes; such distances do not fit the 16-bit offset
+// field of the block format and wrap around to 0 or 1, so the block is corrupt. The high-compression block
+// compressor bounds its match distances correctly, hence it is used for inputs that do not fit the 64 KiB window.
+func compressBlock(src, dst []byte) (int, error) {
+	if len(src) > 1<<16 {
+		return lz4.CompressBlockHC(src, dst, lz4.Level1, nil, nil)
+	}
+	return lz4.CompressBlock(src, dst, nil)
 }
 
 func (c Compressor) Decompress(source io.Reader, dest io.Writer) error {
